@@ -319,9 +319,12 @@ def r2_sequence(program, folder, rep):
         if num is not None and num[0] == "index":
             # the running index of the pieces themselves
             from ..terms import chunk_offsets
-            okn = chunk_index(plain(num), B, tconst) is not None and \
-                piece[0] == "item" and plain(piece[2][1]) == (
-                    "elem", chunk_offsets(plain(num)))
+            if chunk_index(plain(num), B, tconst) is None:
+                raise AnalysisError("boot: the blocks are numbered by their "
+                                    "position in a collection whose "
+                                    "construction these rules do not read")
+            okn = piece[0] == "item" and plain(piece[2][1]) == (
+                "elem", chunk_offsets(plain(num)))
         elif num is not None and num[0] == "mu":
             alts = one_level(num)
             okn = ("const", 0) in alts and len(alts) == 2 and any(
